@@ -28,7 +28,7 @@ ANCHORS = [
     ("tangelo/algorithms/variational/vqe_solver.py", "operator_expectation", "temporary swap of the target operator"),
     ("tangelo/algorithms/variational/vqe_solver.py", "__init__", "reference-state override handling"),
 ]
-REQUIRED = {"solver_hamiltonian_is_molecular_plus_penalty": 30, "energy_is_expectation": 60, "energy_is_variational": 60, "symmetry_expectation": 100, "hamiltonian_restored": 100, "deflation_overlap": 10, "hf_energy_at_zero": 3}
+REQUIRED = {"solver_hamiltonian_is_molecular_plus_penalty": 30, "energy_is_expectation": 60, "energy_is_variational": 60, "symmetry_expectation": 100, "hamiltonian_restored": 100, "deflation_overlap": 10}
 BUDGET = {"quick": 300, "thorough": 3000}
 TOL = 1e-7
 
@@ -223,7 +223,7 @@ def run_mol(case, ctx):
                 ctx.nontrivial((label, kind, mapping, utd, variant, tuple(round(x, 6) for x in theta)))
 
         # all-zero UCCSD parameters reproduce the mean-field energy (ties the solver to the chemistry)
-        if kind == "UCCSD" and variant == "plain":
+        if kind == "UCCSD" and variant in ("plain", "penalty"):
             e0 = solver.energy_estimation([0.0] * nvp)
             ctx.check("hf_energy_at_zero", abs(e0 - mol.mf_energy) < 1e-6, "UCCSD energy at zero amplitudes is not the mean-field energy",
                       dict(base, energy=e0, mf_energy=mol.mf_energy))
